@@ -39,8 +39,9 @@ var iterMethodValues = map[string]func(fv *FuncVerifier, st *State, env *Env, se
 func init() {
 	iterExterns["bytes.Lines"] = func(fv *FuncVerifier, st *State, env *Env, call *ast.CallExpr) iterInfo {
 		// yields the lines of its argument: no side effects; the lines themselves are not specified here
-		fv.eval(st, env, call.Args[0])
-		ys := fv.fresh("lines", fv.w.SeqSort("Seq_Int"))
+		// (a deterministic function of the argument, so that contracts can speak about "the lines of the file")
+		data := fv.eval(st, env, call.Args[0])
+		ys := fv.uf("bytes_lines", fv.w.SeqSort("Seq_Int"), "", data)
 		return iterInfo{val: fv.fresh("linesiter", SRef), ys: ys, pure: true}
 	}
 	iterExterns["slices.Backward"] = func(fv *FuncVerifier, st *State, env *Env, call *ast.CallExpr) iterInfo {
@@ -222,6 +223,9 @@ func init() {
 		st.Assume(T(SBool, "(forall ((j$ Int)) (! (=> (and (<= 0 j$) (< j$ (len_Int %s)) %s) (and (>= %s 0) (<= %s j$))) :pattern ((at_Int %s j$))))",
 			s.S, in(w.SeqAt(s, j)).S, r.S, r.S, s.S))
 		return []Term{r}
+	})
+	reg("bytes.Fields", "bytes.Fields(b): a deterministic function of b (uninterpreted)", func(fv *FuncVerifier, st *State, env *Env, c *CallCtx) []Term {
+		return []Term{fv.uf("bytes_fields", fv.w.SeqSort(seqInt), "", c.args[0])}
 	})
 	reg("strings.Join", "Join(xs,sep): a deterministic function of (xs,sep) (uninterpreted)", func(fv *FuncVerifier, st *State, env *Env, c *CallCtx) []Term {
 		return []Term{fv.uf("str_join", seqInt, "", c.args[0], c.args[1])}
